@@ -207,10 +207,10 @@ func TestC09(t *testing.T) {
 			}
 		}
 	}
-	rapidCheck(t, "perm", tierN(330, 40000), func(rt *rapid.T) {
+	rapidCheck(t, "perm", tierN(800, 40000), func(rt *rapid.T) {
 		s.exec(rt, "perm", c09Perm{int(genMode().Draw(rt, "mode")), genState().Draw(rt, "state")}, "perm/generated")
 	})
-	rapidCheck(t, "hash", tierN(260, 20000), func(rt *rapid.T) {
+	rapidCheck(t, "hash", tierN(600, 20000), func(rt *rapid.T) {
 		n := rapid.IntRange(0, 40).Draw(rt, "len")
 		m := 0
 		if rapid.Bool().Draw(rt, "ntom") {
@@ -236,7 +236,7 @@ func TestC09(t *testing.T) {
 		}
 		s.exec(rt, "hash", c09Hash{int(genMode().Draw(rt, "mode")), in, m}, class)
 	})
-	rapidCheck(t, "ext", tierN(60, 4000), func(rt *rapid.T) {
+	rapidCheck(t, "ext", tierN(150, 4000), func(rt *rapid.T) {
 		st := make([][2]uint64, 12)
 		for i := range st {
 			e := genE().Draw(rt, "e")
